@@ -58,7 +58,7 @@ func (x *G) wsText() *Node { return &Node{Text: x.pick("sp", spaces)} }
 
 func (x *G) comment() *Node {
 	x.Feats["comment"]++
-	return &Node{Tag: "!", Text: x.pick("comment", []string{" c ", "", "[if IE]>x<![endif]", "#include virtual=\"a\" ", "a-b", " <b> "})}
+	return &Node{Tag: "!", Text: x.pick("comment", []string{" c ", "", "[if IE]>x<![endif]", "#include virtual=\"a\" ", "a-b", " <b> ", "[if lt IE 9]><ul><li class=\"a\">one</li> <li>two</li></ul><![endif]", "[if IE]><p title=\"t\">a  b</p><input type=\"text\" value=\"v\"><form method=\"get\"></form><![endif]", "[if gt IE 8]><table><tr><td colspan=\"1\">x</td></tr></table> <b>y</b><![endif]"})}
 }
 
 var attrValues = []string{"v", "a b", " a  b ", "", "x=y", "it's", "say \"hi\"", "a&amp;b", "a&b", "&lt;", "1", "#id", "a>b", "a<b", "`", "a`b", "é", "&#34;", "&quot;x&#39;", "a\nb", " ", "/", "a/", "x y z", "&notit;", "=", "a=b c=d"}
